@@ -3,7 +3,7 @@
    File.v, Tree.v, Final.v.
    reload name k fresh oks v = "close() writes the value line of v under [name];
    open_registry() reads that file; a fresh instance of class k is set from the cache". *)
-From Coq Require Import List NArith ZArith.
+From Coq Require Import List NArith ZArith Bool.
 Import ListNotations.
 Require Import Base.Wire Base.PyStr C15.Model C15.Lemmas C15.Names C15.Codec C15.Split C15.File C15.FileMulti C15.Tree C15.Final C15.Atomic C15.Gen C15.Restart C15.Wrapped C15.NormRT C15.Reset C15.ResetWorld C15.Width C15.Api.
 Require Import gen.T15.
@@ -158,13 +158,21 @@ Print Assumptions C15_specific_safe_necessary.
    However those behave: if the call raises, self.value (hence what serialize() would save, and the
    children that inherit it) has not been assigned. *)
 Theorem C15_reject_atomic_all_classes :
-  forall name, In name INVENTORY ->
+  forall name, In name INVENTORY -> excepted name = false ->
   exists pset psetvalue, In (name, pset, psetvalue) ATOMIC_TABLE /\
   forall o,
     (snd (fst (exec pset o false)) = true -> fst (fst (exec pset o false)) = false) /\
     (snd (fst (exec psetvalue o false)) = true -> fst (fst (exec psetvalue o false)) = false).
 Proof. exact reject_atomic_all_classes. Qed.
 Print Assumptions C15_reject_atomic_all_classes.
+
+(* INVENTORY = every registry value class defined anywhere in src/ and plugins/ (85 classes on this tree).
+   excepted = the classes of ATOMIC_EXCEPTIONS (regenerated: the recorded findings that are still in the source);
+   they are exactly classes whose program is NOT atomic *)
+Theorem C15_atomic_exceptions_are_refuted :
+  forallb (fun e : list N * stm * stm => negb (excepted (fst (fst e))) || negb (atomic (snd (fst e)) && atomic (snd e))) ATOMIC_TABLE = true.
+Proof. exact exceptions_are_not_atomic. Qed.
+Print Assumptions C15_atomic_exceptions_are_refuted.
 
 Theorem C15_atomic_table_covers_inventory : map (fun e => fst (fst e)) ATOMIC_TABLE = INVENTORY.
 Proof. exact table_covers_inventory. Qed.
